@@ -193,7 +193,24 @@ def run_shard(spec, res):
                 ok = check_core()
                 if ok and rng.random() < 0.5:
                     path_tags.add("repeat-call")
+                    if rng.random() < 0.6:
+                        # another frontend works with the backend in between (with one backend solver per thread it is
+                        # the same Z3 solver object that gets reset and refilled)
+                        intruder = rng.choice([claripy.Solver, claripy.SolverCacheless])(track=rng.random() < 0.5)
+                        intruder.add([B([rng.choice(["ult", "ugt", "ne"]), x, al.k()]), B(al.constraint())])
+                        try:
+                            intruder.satisfiable()
+                            intruder.eval(B(x), 2)
+                            if rng.random() < 0.5:
+                                intruder.unsat_core() if intruder._track else None
+                        except claripy.errors.ClaripyError:
+                            pass
+                        keep.append(intruder)
+                        log.append(["another-solver-used-the-backend"])
+                        res.count("intruder_between_core_calls")
                     ok = check_core()
+                    if ok and rng.random() < 0.5:
+                        ok = check_core()
                 if ok and rng.random() < 0.3:
                     check_core(extra_d=[al.constraint()])
                 if ok and rng.random() < 0.3:
